@@ -16,6 +16,15 @@ Mantissas == {<<80, 1>>, <<1234, 3>>, <<12, 0>>, <<5, 1>>}
 PmErrs == {<<40, 1>>, <<4, 1>>, <<3, 0>>}
 ShortDigits == {<<4, 0>>, <<12, 0>>, <<5, 0>>}
 Exps == {NoExp, 2, -2, 6, -6}
+\* thorough instance (MC_C19_full.cfg substitutes these): more digit shapes, exponents, constructor and conversion values
+MantissasT == {<<80, 1>>, <<1234, 3>>, <<12, 0>>, <<5, 1>>, <<100, 0>>, <<7, 0>>, <<25, 2>>, <<667430, 5>>, <<1, 1>>}
+PmErrsT == {<<40, 1>>, <<4, 1>>, <<3, 0>>, <<25, 2>>, <<0, 0>>, <<100, 0>>, <<1, 3>>}
+ShortDigitsT == {<<4, 0>>, <<12, 0>>, <<5, 0>>, <<15, 0>>, <<1, 0>>, <<123, 0>>}
+ExpsT == {NoExp, 2, -2, 6, -6, 1, -1, 3, 0}
+CtorVT == {R(3), R(-3), <<5, 2>>, <<1, 1000>>, R(1000), <<-7, 4>>}
+CtorET == {<<1, 2>>, Zero, <<-1, 2>>, R(2), <<1, 1000>>, R(-3)}
+ConvPoolT == {<<R(3), <<1, 2>>, "m">>, <<R(200), R(50), "cm">>, <<R(20), <<1, 2>>, "degC">>, <<R(68), <<9, 10>>, "degF">>, <<R(-40), R(1), "degF">>,
+             <<R(300), R(3), "K">>, <<R(2), <<1, 4>>, "s">>, <<R(-273), R(1), "degC">>, <<Zero, <<1, 10>>, "K">>, <<R(212), R(2), "degF">>, <<R(5), <<1, 8>>, "km">>, <<R(-2), <<1, 4>>, "m">>}
 VARIABLES kind, inp, out
 vars == <<kind, inp, out>>
 Init == kind = "init" /\ inp = <<>> /\ out = <<>>
@@ -38,6 +47,7 @@ Note == \E f \in {"pm", "ppm", "short", "short-dot"}, ng \in BOOLEAN, nm \in Man
           /\ (f = "short" <=> ue \in ShortDigits)
           /\ (tl = "**2" => ex \in {NoExp, 2, -2} /\ mu = 1 /\ nm # <<1234, 3>> /\ ~ng)
           /\ (mu = 2 => ex \in {NoExp, 2})
+          /\ (nm[1] > 100000 => ex \in {NoExp, 0, 1, -1, 2, -2, 3} /\ tl = "")          \* 32-bit arithmetic of the model checker
           /\ kind' = "note" /\ inp' = n /\ LET m == NotationValue(n) IN out' = [k |-> "ok", nom |-> m.nom, std |-> RAbs(m.lin["a"]), un |-> m.un]
 Render == \E f \in Flags, sh \in {"plain", "exp", "short", "short-exp"} :
           kind' = "render" /\ inp' = <<f, sh>> /\ out' = Rendered(f, sh)
